@@ -20,6 +20,10 @@ SPEC = {
         # schedules of C06 (no model involved), read for the clause "every go is answered once its stop has been consumed"
         "name": "stop-at-every-scheduling-point", "group": "huci", "key": "C06", "model": False, "tags": ["C05"],
         "n_quick": 1600, "n_thorough": 30000, "min_per_shard": 50, "timeout": 3000, "search_factor": 2,
+    }, {
+        # ... and between the scheduling points: the real process with stop written directly behind go (tested, not proved)
+        "name": "process-stop-directly-behind-go", "group": "huci", "key": "C06P", "model": False, "tags": ["C05"],
+        "n_quick": 24, "n_thorough": 400, "max_shards": 4, "min_per_shard": 6, "timeout": 3000, "search_factor": 1,
     }],
     "rule": "tie 1: the SEARCH cases of C04 (terminal roots included): node and poll counters and every info line are compared with "
             "the extracted model, which fixes where cancellation lands and what runs afterwards (the one fallback search); a search "
@@ -27,7 +31,9 @@ SPEC = {
             "(tested, not proved): the real engine process with movetime / clock / depth limits and `go infinite` + `stop` on ordinary, "
             "checkmated and stalemated positions must answer within the limit + 1 s (an overrun counts only if it repeats three times); "
             "tie 3: random schedules of reader thread and search goroutine forced through the scheduling points of the real handlers "
-            "(the executor of C06): every go whose stop has been consumed must be answered when nothing can move any more; "
+            "(the executor of C06): every go whose stop has been consumed must be answered when nothing can move any more; tie 4 (tested): the real "
+            "process with the lines of a round written in ONE write (stop directly behind go): answered within 3 s, a failure counts only if "
+            "it repeats in three attempts; "
             "distinct = distinct cases",
     "assumptions": ["wall-clock promptness is a property of the runtime and is tested (tie 2), not proved",
                     "termination of a root search is proved for sufficient fuel; fuel sufficiency itself rests on the bounded check-extension hypothesis stated in DESIGN"],
